@@ -12,7 +12,7 @@ from wire import to_wire, canon
 from props.common import scale, depth_of, schema_tags, same, load_corpus
 
 THEOREMS = ["c01_long_roundtrip", "c01_roundtrip", "c01_stream"]
-TARGETS = ["Properties.Tables", "Properties.C01"]
+TARGETS = ["Properties.TablesCodec", "Properties.C01"]
 
 
 def gen_cases(seed, n, **opt):
